@@ -810,6 +810,9 @@ def _unaligned(shape, dtype):
     return a
 
 
+MISUSE_MESSAGE = {'unaligned-input': 'input array not aligned', 'unaligned-output': 'output array not aligned', 'duplicate-axes': 'duplicate', 'duplicate-axes-negative': 'duplicate', 'forward-out-shape': 'expected output shape', 'forward-hc-out-shape': 'expected output shape', 'forward-hc-complex-input': 'cannot combine halfcomplex forward', 'forward-out-dtype': 'expected output dtype', 'forward-real-out-dtype': 'expected output dtype', 'backward-in-shape': 'expected input shape', 'backward-hc-in-shape': 'expected input shape', 'backward-hc-complex-output': 'cannot combine halfcomplex backward', 'backward-in-dtype': 'expected input dtype', 'backward-real-out-without-hc': 'expected input dtype'}
+
+
 def run_pyfftw_direct(ctx, B, oracle_only=False):
     """ORACLE: every accepted call equals numpy.fft on a copy (with the documented normalisation)
     and leaves its input intact; every documented misuse raises ValueError."""
@@ -986,6 +989,11 @@ def run_pyfftw_direct(ctx, B, oracle_only=False):
         if got != 'err:value':
             viol(ctx, key('misuse ' + name), 'documented ValueError, got {}'.format(got if e is None else repr(e))[:300],
                  {'kind': 'pyfftw_direct_bad', 'name': name})
+        elif MISUSE_MESSAGE[name] not in str(e):
+            # the argument check of ODL itself must fire (its purpose is the explicit message), not
+            # some later error of the FFTW wrapper
+            viol(ctx, key('misuse ' + name + ' message'), 'expected ODL\'s own check ({!r}), got {!r}'.format(
+                MISUSE_MESSAGE[name], e)[:300], {'kind': 'pyfftw_direct_bad', 'name': name})
     # ---- the generic DiscreteFourierTransformBase._call_pyfftw (un-normalised transform in the
     # direction of the sign; `flags=` in FFTW form) reached through the base class itself
     odl = _odl()
